@@ -23,6 +23,14 @@ mod core;
 mod dht;
 #[cfg(mainline_verif)]
 pub mod verif;
+#[cfg(mainline_verif)]
+pub mod verif_exports {
+    //! Argument structs of [crate::PutRequestSpecific], needed to call `put` with extra nodes.
+    pub use crate::common::messages::{
+        AnnouncePeerRequestArguments, AnnounceSignedPeerRequestArguments,
+        PutImmutableRequestArguments, PutMutableRequestArguments,
+    };
+}
 
 #[cfg(feature = "async")]
 pub use dht::async_dht;
